@@ -10,15 +10,19 @@ Section Tr.
   Context {T : Type} (O : Ops T).
   Variable twopi : T.
 
+  (* When the source could not be translated, Gen/C19_code.v says [translated = false] and holds placeholders: the
+     premise is then false and [untranslated] closes the goal; later sentences are written [all: ...] (no-ops then). *)
+  Ltac untranslated Ht := try solve [vm_compute in Ht; discriminate Ht].
+
   Lemma code_H0_is_model dq q : translated = true -> code_H0 O twopi dq q = mul O (div O dq twopi) q.
-  Proof. intros Ht. first [ now (vm_compute in Ht; discriminate Ht) | idtac ]. reflexivity. Qed.
+  Proof. intros Ht. untranslated Ht. all: reflexivity. Qed.
 
   Lemma code_H_is_model dq q j0v lam zaccept : translated = true ->
     code_H O twopi dq q j0v lam zaccept =
     if accepted O twopi q lam zaccept then mul O j0v (div O (mul O dq q) twopi) else zero O.
   Proof.
-    intros Ht. first [ now (vm_compute in Ht; discriminate Ht) | idtac ].
-    unfold code_H, accepted. destruct (leb O _ _); destruct (leb O _ _); reflexivity.
+    intros Ht. untranslated Ht.
+    all: unfold code_H, accepted; destruct (leb O _ _); destruct (leb O _ _); reflexivity.
   Qed.
 
   Lemma map_ext_all {A B} (f g : A -> B) l : (forall x, f x = g x) -> map f l = map g l.
@@ -27,9 +31,9 @@ Section Tr.
   Theorem code_P_is_model pts lam zaccept j : translated = true ->
     code_P O twopi pts lam zaccept j = P O twopi pts lam zaccept j.
   Proof.
-    intros Ht. first [ now (vm_compute in Ht; discriminate Ht) | idtac ].
-    unfold code_P, P, G, G0, C19.Model.sumL. f_equal. f_equal.
-    apply map_ext_all. intros p. unfold accepted.
-    destruct (leb O _ _); destruct (leb O _ _); reflexivity.
+    intros Ht. untranslated Ht.
+    all: unfold code_P, P, G, G0, C19.Model.sumL; f_equal; f_equal.
+    all: apply map_ext_all; intros p; unfold accepted.
+    all: destruct (leb O _ _); destruct (leb O _ _); reflexivity.
   Qed.
 End Tr.
